@@ -23,6 +23,7 @@ func checkC02(c *Check, a *Anchors) {
 	freshElements(c, a, "cmd-elements-fresh")
 	sharedWait(c, a)    // a task call that joins a shared execution returns only when that execution has finished
 	c10WriteOrder(c, a) // call variables are applied above every Taskfile / include level, below the callee's own vars
+	cmdTemplatedWhole(c, a)
 }
 
 // cmdsLoop finds the loop over t.Cmds in the body closure whose body reaches the command runner.
@@ -529,7 +530,17 @@ func extraThreaded(c *Check, a *Anchors) {
 				return true
 			}
 			base := strings.TrimSuffix(fn.Name(), "WithExtra")
-			if !hasExtraForm[base] {
+			// every helper that renders against the cache (takes a *Cache) must receive the extras, whether or not a
+			// ...WithExtra form of it exists: a helper without such a form drops them by construction
+			takesCache := false
+			if sig, ok := fn.Type().(*types.Signature); ok {
+				for i := 0; i < sig.Params().Len(); i++ {
+					if nt := namedOf(sig.Params().At(i).Type()); nt != nil && nt.Obj().Name() == "Cache" && nt.Obj().Pkg() != nil && nt.Obj().Pkg().Path() == PkgTemplater {
+						takesCache = true
+					}
+				}
+			}
+			if !hasExtraForm[base] && !takesCache {
 				return true
 			}
 			n++
@@ -579,7 +590,17 @@ func extraThreaded(c *Check, a *Anchors) {
 				return true
 			}
 			base := strings.TrimSuffix(fn.Name(), "WithExtra")
-			if !hasExtraForm[base] {
+			// every helper that renders against the cache (takes a *Cache) must receive the extras, whether or not a
+			// ...WithExtra form of it exists: a helper without such a form drops them by construction
+			takesCache := false
+			if sig, ok := fn.Type().(*types.Signature); ok {
+				for i := 0; i < sig.Params().Len(); i++ {
+					if nt := namedOf(sig.Params().At(i).Type()); nt != nil && nt.Obj().Name() == "Cache" && nt.Obj().Pkg() != nil && nt.Obj().Pkg().Path() == PkgTemplater {
+						takesCache = true
+					}
+				}
+			}
+			if !hasExtraForm[base] && !takesCache {
 				return true
 			}
 			n++
